@@ -207,7 +207,7 @@ def sortStrAsc : List String → List String
   | a :: as => insertStrAsc a (sortStrAsc as)
 
 /-- `sorted.iter().enumerate().map(|(new, old)| (old, new))` -/
-def rankMap (sorted : List Nat) : AMap := sorted.zipIdx.map (fun p => (p.1, p.2))
+def rankMap (sorted : List Nat) : AMap := sorted.zipIdx
 
 def orSelf (m : AMap) (i : Nat) : Nat := (m.get i).getD i
 
@@ -236,39 +236,49 @@ structure ShakeOut where
   ren : Ren
   marks : Marks
 
-/-- `tree_shake`. The lookup tables `compat` / `canon` / `fparam` / `bparam` of the result are left
+/-- the renaming the sweep builds from the marks -/
+def shakeRen (P : Prog) (m : Marks) : Ren :=
+  let sr := sortStrAsc m.resources
+  { const := rankMap (sortAsc m.consts), fn := rankMap (sortAsc m.fns), tuple := rankMap (sortAsc m.tuples),
+    type := rankMap (sortAsc m.types), builtin := rankMap (sortAsc m.builtins),
+    resource := (List.range P.resources.size).filterMap (fun i =>
+      match P.resources[i]? with
+      | some n => (sr.findIdx? (· == n)).map (fun j => (i, j))
+      | none => none) }
+
+def shakeFn (ρ : Ren) (F : Fn) : Option Fn :=
+  (mapOpt (shakeInstr ρ) F.instrs).map (fun is =>
+    ({ instrs := is, captures := F.captures, typeId := orSelf ρ.type F.typeId } : Fn))
+
+def shakeBuiltin (ρ : Ren) (B : BuiltinInfo) : BuiltinInfo :=
+  { B with paramType := orSelf ρ.type B.paramType, resultType := orSelf ρ.type B.resultType }
+
+def shakeTuple (ρ : Ren) (T : TupleInfo) : TupleInfo :=
+  { T with fields := T.fields.map (fun p => (p.1, orSelf ρ.type p.2)) }
+
+/-- the sweep phase. The lookup tables `compat` / `canon` / `fparam` / `bparam` of the result are left
     empty: they are recomputed when the bytecode is loaded. -/
+def sweep (P : Prog) (entry : Nat) (m : Marks) : Option ShakeOut :=
+  let ρ := shakeRen P m
+  match getAll P.fns (sortAsc m.fns), getAll P.consts (sortAsc m.consts), getAll P.tuples (sortAsc m.tuples),
+        getAll P.builtins (sortAsc m.builtins), getAll P.types (sortAsc m.types), ρ.fn.get entry with
+  | some fs, some cs, some ts, some bs, some ys, some e' =>
+    match mapOpt (shakeFn ρ) fs with
+    | none => none
+    | some fs' =>
+      some { prog := { consts := cs.toArray, fns := fs'.toArray,
+                       builtins := (bs.map (shakeBuiltin ρ)).toArray,
+                       tuples := (ts.map (shakeTuple ρ)).toArray,
+                       types := (ys.map (shakeTy ρ)).toArray,
+                       resources := (sortStrAsc m.resources).toArray, compat := [], canon := #[] },
+             entry := e', ren := ρ, marks := m }
+  | _, _, _, _, _, _ => none
+
+/-- `tree_shake`: mark, then sweep. -/
 def treeShakeWith (legacy : Bool) (P : Prog) (entry : Nat) : Option ShakeOut :=
   match markAll P entry legacy with
   | none => none
-  | some m =>
-    let sf := sortAsc m.fns
-    let sc := sortAsc m.consts
-    let st := sortAsc m.tuples
-    let sy := sortAsc m.types
-    let sb := sortAsc m.builtins
-    let sr := sortStrAsc m.resources
-    let resMap : AMap := (List.range P.resources.size).filterMap (fun i =>
-      match P.resources[i]? with
-      | some n => (sr.findIdx? (· == n)).map (fun j => (i, j))
-      | none => none)
-    let ρ : Ren := { const := rankMap sc, fn := rankMap sf, tuple := rankMap st, type := rankMap sy,
-                     builtin := rankMap sb, resource := resMap }
-    match getAll P.fns sf, getAll P.consts sc, getAll P.tuples st, getAll P.builtins sb, getAll P.types sy,
-          ρ.fn.get entry with
-    | some fs, some cs, some ts, some bs, some ys, some e' =>
-      match mapOpt (fun (F : Fn) => (mapOpt (shakeInstr ρ) F.instrs).map (fun is =>
-              ({ instrs := is, captures := F.captures, typeId := orSelf ρ.type F.typeId } : Fn))) fs with
-      | none => none
-      | some fs' =>
-        some { prog := { consts := cs.toArray, fns := fs'.toArray,
-                         builtins := (bs.map (fun B => { B with paramType := orSelf ρ.type B.paramType,
-                                                                resultType := orSelf ρ.type B.resultType })).toArray,
-                         tuples := (ts.map (fun T => { T with fields := T.fields.map (fun p => (p.1, orSelf ρ.type p.2)) })).toArray,
-                         types := (ys.map (shakeTy ρ)).toArray,
-                         resources := sr.toArray, compat := [], canon := #[] },
-               entry := e', ren := ρ, marks := m }
-    | _, _, _, _, _, _ => none
+  | some m => sweep P entry m
 
 def treeShake (P : Prog) (entry : Nat) : Option ShakeOut := treeShakeWith false P entry
 
